@@ -69,6 +69,10 @@ impl Profile {
             "search_path" => search(&mut p, Focus::Path),
             "search_elem" => search(&mut p, Focus::Elements),
             "search_mixed" => search(&mut p, Focus::Mixed),
+            "churn_alias" => { p.w_insert_aliases = 40; p.w_remove_aliases = 25; p.w_update_nodes = 10; p.w_insert_nodes = 6; p.w_remove = 5;
+                               p.w_insert_edges = 1; p.w_index = 1; p.w_tx = 3; p.w_insert_values = 2; p.w_remove_values = 1; p.reads_per_step = 0; p.max_elems = 8; }
+            "churn_index" => { p.w_index = 6; p.w_insert_values = 40; p.w_remove_values = 25; p.w_update_nodes = 10; p.w_insert_nodes = 5; p.w_remove = 5;
+                               p.w_insert_edges = 2; p.w_tx = 4; p.w_insert_aliases = 2; p.reads_per_step = 1; p.max_elems = 8; }
             "elements" => { p.w_remove = 16; p.w_insert_nodes = 14; p.w_insert_edges = 14; p.reads_per_step = 2; }
             _ => {}
         }
@@ -547,6 +551,7 @@ pub fn run(args: &Args) {
     std::fs::create_dir_all(&work).unwrap();
     std::panic::set_hook(Box::new(|_| {}));
     let mut trace = Trace::create(&out);
+    let wd = vcore::Watchdog::start(20, &out);
     let (mut n_mut, mut n_ok, mut n_fail, mut n_tx, mut n_tx_rb, mut n_reads, mut n_maint, mut n_obs) = (0u64, 0u64, 0u64, 0u64, 0u64, 0u64, 0u64, 0u64);
     let mut distinct = std::collections::HashSet::new();
     let mut aborted_runs = 0u64;
@@ -569,6 +574,8 @@ pub fn run(args: &Args) {
         let mut step = 0;
         'steps: while step < ops {
             step += 1;
+            trace.flush();
+            wd.kick(&format!("run {run} step {step}"));
             if obs["ev"] != "Observe" {
                 aborted_runs += 1;
                 break;
